@@ -140,6 +140,26 @@ func (g *gen) subRange(cur []vt.Iv, fd int, mode int) string {
 				parts = []string{f(new(big.Int).Add(iv.Hi, big.NewInt(5)))}
 			}
 		}
+	case 4:
+		// keyword boundaries anywhere: "x..max", "min..x", "min..max", "a..b | x..max"; over a base with gaps such a part
+		// is a subset only if both ends lie in one run of touching parts
+		iv := cur[g.pick(len(cur), "kwiv")]
+		x := pt(iv, "kwx")
+		switch g.pick(4, "kwform") {
+		case 0:
+			parts = []string{f(x) + "..max"}
+		case 1:
+			parts = []string{"min.." + f(x)}
+		case 2:
+			parts = []string{"min..max"}
+		default:
+			first := cur[0]
+			if x.Cmp(first.Hi) > 0 {
+				parts = []string{f(first.Lo) + ".." + f(first.Hi), f(x) + "..max"}
+			} else {
+				parts = []string{"min.." + f(x)}
+			}
+		}
 	case 3:
 		// one part that spans the first two base parts (valid only when they touch and the type is integral)
 		if len(cur) >= 2 {
@@ -194,7 +214,7 @@ func genCase(t *rapid.T) Case {
 	level := func(isLeaf bool) Level {
 		var l Level
 		if g.pick(3, "restrict") != 0 || isLeaf {
-			mode := []int{0, 0, 0, 0, 0, 1, 0, 0, 3, 0, 2, 0, 0, 3, 0, 0}[g.pick(16, "mode")]
+			mode := []int{0, 0, 0, 4, 0, 1, 0, 4, 3, 0, 2, 0, 4, 3, 0, 0}[g.pick(16, "mode")]
 			if fixedBases[c.Base] != nil {
 				if g.pick(20, "wrongkind") == 11 {
 					switch g.pick(3, "wkfixed") {
